@@ -785,7 +785,6 @@ Proof.
     apply (inv_of_single (TCallable a t) (TCallable (map AO a) (AO t)) [(callable_id, 0)]); auto.
     + rewrite Eiv0. cbn [map]. rewrite Eoi. reflexivity.
     + rewrite Eiv0. eexists; reflexivity.
-    + rewrite Eiv0. reflexivity.
     + apply NoDup_one.
   - (* union *)
     destruct (wf_union_inv _ Hwf) as (Hl & Hws & Hms & Hbases & Hkeys).
@@ -819,7 +818,7 @@ Proof.
         2:{ apply Forall_flat_map. apply Forall_forall. intros z Hz. apply in_map_iff in Hz.
             destruct Hz as [u [<- _]]. apply members_flat_elt, nf_unorm. }
         rewrite flat_map_map. apply flat_map_ext_Forall. apply Forall_forall. intros m Hm.
-        destruct (IHm m Hm) as [_ _ (Hb & _)]. rewrite <- map_map. exact Hb.
+        destruct (IHm m Hm) as [_ _ (Hb & _)]. exact Hb.
       * (* at least two bindings *)
         destruct ts as [|t1 [|t2 ts']]; [simpl in Hl; lia|simpl in Hl; lia|].
         destruct (Hmm t1 (or_introl eq_refl)) as [Hu1 _].
@@ -829,12 +828,209 @@ Proof.
         destruct (He1 Hu1) as [v1 E1]. destruct (He2 Hu2) as [v2 E2].
         simpl. rewrite E1, E2. simpl. destruct v1; discriminate.
       * intros _. cbn [mkeys]. split.
-        -- rewrite map_flat_map, flat_map_flat_map, map_flat_map. apply flat_map_ext_Forall.
+        -- rewrite (map_flat_map (fun m => IV m) (out arity)), flat_map_flat_map, map_flat_map.
+           apply flat_map_ext_Forall.
            apply Forall_forall. intros m Hm. destruct (Hmm m Hm) as [Hu Ha].
            destruct (IHm m Hm) as [_ _ (_ & _ & HKm & _)]. destruct (HKm Ha) as [HKk _].
            rewrite HKk. destruct m; simpl in Hu; try discriminate; reflexivity.
-        -- rewrite map_flat_map, flat_map_flat_map. apply Forall_flat_map. apply Forall_forall.
+        -- rewrite (map_flat_map (fun m => IV m) (out arity)), flat_map_flat_map.
+           apply Forall_flat_map. apply Forall_forall.
            intros m Hm. destruct (Hmm m Hm) as [Hu Ha].
            destruct (IHm m Hm) as [_ _ (_ & _ & HKm & _)]. destruct (HKm Ha) as [_ HKn]. exact HKn.
       * discriminate.
 Qed.
+
+(* ---- module-level names: pytd_for_types ---- *)
+
+Lemma inst_not_unsolvable m :
+  wf arity m = true -> member_ok m = true -> is_unsolvable (inst arity m) = false.
+Proof.
+  intros Hwf Hm. destruct m; simpl in Hm; try discriminate.
+  - simpl in Hwf. apply andb_true_iff in Hwf. destruct Hwf as [_ Hty]. apply negb_true_iff in Hty.
+    cbn [inst]. unfold bare_inst. rewrite Hty. destruct ((c =? none_id) && (arity c =? 0)%nat); reflexivity.
+  - destruct (wf_generic_inv _ _ Hwf) as (_ & Hl & _ & Hps & Hty).
+    cbn [inst]. destruct (c =? type_id) eqn:E.
+    + apply N.eqb_eq in E. destruct (Hty E) as (u & -> & Hua & _). inversion Hps; subst.
+      destruct (conv_cls u) eqn:Ec; try reflexivity. apply conv_cls_unsolvable in Ec; auto. subst. discriminate.
+    + rewrite Hl, Nat.leb_refl. reflexivity.
+  - reflexivity.
+  - reflexivity.
+Qed.
+
+Lemma inst_not_param m :
+  wf arity m = true -> member_ok m = true -> base m <> type_id -> is_param_or_union (inst arity m) = false.
+Proof.
+  intros Hwf Hm Hb. destruct m; simpl in Hm; try discriminate.
+  - cbn [inst]. unfold bare_inst. simpl in Hb. apply N.eqb_neq in Hb. rewrite Hb.
+    destruct ((c =? none_id) && (arity c =? 0)%nat); reflexivity.
+  - destruct (wf_generic_inv _ _ Hwf) as (_ & Hl & _). simpl in Hb.
+    cbn [inst]. apply N.eqb_neq in Hb. rewrite Hb. rewrite Hl, Nat.leb_refl. reflexivity.
+  - reflexivity.
+  - reflexivity.
+Qed.
+
+Lemma top_of_cls u :
+  wf arity u = true -> is_any u = false -> nfree u = true ->
+  def_ty (out_top arity [conv_cls u]) = TGeneric type_id [OC u].
+Proof.
+  intros Hwf Ha Hnf. unfold out_top.
+  assert (is_unsolvable (conv_cls u) = false) as Hun.
+  { destruct (conv_cls u) eqn:E; try reflexivity. apply conv_cls_unsolvable in E; auto. subst; discriminate. }
+  cbn [existsb]. rewrite Hun. cbn [orb].
+  destruct u; try discriminate; try reflexivity.
+  destruct (wf_union_inv _ Hwf) as (Hl & _).
+  destruct ts as [|t1 [|t2 ts']]; simpl in Hl; try lia. reflexivity.
+Qed.
+
+Lemma existsb_false_Forall {A} (p : A -> bool) l : Forall (fun x => p x = false) l -> existsb p l = false.
+Proof. induction 1; simpl; auto. rewrite H. auto. Qed.
+
+Lemma conv_out_id_lemma t :
+  wf_top arity t = true -> nf (def_ty (out_top arity (conv_var arity t))) = nf t.
+Proof.
+  unfold wf_top. intros H. apply andb_true_iff in H. destruct H as [Hwf Hnn]. apply negb_true_iff in Hnn.
+  pose proof (inv_all t Hwf) as HI.
+  destruct (member_ok t) eqn:Hm.
+  - (* one binding *)
+    rewrite conv_var_single by auto.
+    pose proof (inst_not_unsolvable t Hwf Hm) as Hun.
+    destruct t; simpl in Hm; try discriminate.
+    + (* class *)
+      assert (def_ty (out_top arity [inst arity (TClass c)]) = OI (TClass c)) as ->.
+      { unfold out_top. cbn [existsb]. rewrite Hun. cbn [orb].
+        simpl in Hwf. apply andb_true_iff in Hwf. destruct Hwf as [_ Hty]. apply negb_true_iff in Hty.
+        cbn [inst] in *. unfold bare_inst in *. rewrite Hty in *.
+        destruct ((c =? none_id) && (arity c =? 0)%nat); reflexivity. }
+      apply HI. reflexivity.
+    + (* generic *)
+      destruct (wf_generic_inv _ _ Hwf) as (_ & Hl & _ & Hps & Hty).
+      destruct (c =? type_id) eqn:E.
+      * apply N.eqb_eq in E. destruct (Hty E) as (u & -> & Hua & Hunf & _). subst c.
+        inversion Hps; subst.
+        change (inst arity (TGeneric type_id [u])) with (conv_cls u).
+        rewrite top_of_cls, nf_type_generic, Pa by auto. reflexivity.
+      * assert (def_ty (out_top arity [inst arity (TGeneric c ps)]) = OI (TGeneric c ps)) as ->.
+        { unfold out_top. cbn [existsb]. rewrite Hun. cbn [orb].
+          cbn [inst]. rewrite E, Hl, Nat.leb_refl. reflexivity. }
+        apply HI. reflexivity.
+    + (* tuple *) unfold out_top. cbn [existsb orb inst is_unsolvable def_ty]. apply HI. reflexivity.
+    + (* callable *) unfold out_top. cbn [existsb orb inst is_unsolvable def_ty]. apply HI. reflexivity.
+  - destruct t; try (simpl in Hm; discriminate); try reflexivity; try (simpl in Hnn; discriminate);
+      try (simpl in Hwf; discriminate).
+    + (* union *)
+      destruct (wf_union_inv _ Hwf) as (Hl & Hws & Hms & Hbases & _).
+      rewrite conv_var_union by auto.
+      assert (def_ty (out_top arity (map (inst arity) ts)) = join (map (out arity) (map (inst arity) ts))) as ->.
+      { unfold out_top.
+        rewrite existsb_false_Forall.
+        2:{ apply Forall_forall. intros v Hv. apply in_map_iff in Hv. destruct Hv as [m [<- Hin]].
+            rewrite Forall_forall in *. apply inst_not_unsolvable; auto. }
+        destruct ts as [|t1 [|t2 ts']]; simpl in Hl; try lia.
+        cbn [map]. cbn [map] in Hbases.
+        inversion Hws as [|? ? Hw1 Hws']; subst. inversion Hws' as [|? ? Hw2 _]; subst.
+        inversion Hms as [|? ? Hm1 Hms']; subst. inversion Hms' as [|? ? Hm2 _]; subst.
+        inversion Hbases as [|? ? Hn1 _]; subst.
+        assert (forallb (is_param_or_union)
+                        (inst arity t1 :: inst arity t2 :: map (inst arity) ts') = false) as ->; [|reflexivity].
+        destruct (N.eq_dec (base t1) type_id) as [E1|E1].
+        - assert (base t2 <> type_id) as E2.
+          { intros E2. apply Hn1. left. congruence. }
+          cbn [forallb]. rewrite (inst_not_param t2) by auto. rewrite andb_false_r. reflexivity.
+        - cbn [forallb]. rewrite (inst_not_param t1) by auto. reflexivity. }
+      rewrite <- conv_var_union by auto. apply HI.
+Qed.
+
+(* `x = T` in the upstream stub (a type alias): the downstream name is the class-valued attribute type[T] *)
+Lemma alias_out_id_lemma t :
+  wf arity t = true -> is_any t = false -> nfree t = true ->
+  nf (def_ty (out_top arity (conv_alias t))) = nf (TGeneric type_id [t]).
+Proof.
+  intros Hwf Ha Hnf. unfold conv_alias. rewrite top_of_cls, nf_type_generic, Pa by auto. reflexivity.
+Qed.
+
+End RoundTrip.
+
+(* ------------------------------------------------------------------------------------------ *)
+(* the round trip up to the order of union members *)
+
+Lemma conv_out_canon_lemma arity t :
+  arity type_id = 1%nat -> arity tuple_id = 1%nat -> wf_top arity t = true ->
+  canon (def_ty (out_top arity (conv_var arity t))) = canon t.
+Proof. intros H1 H2 Hwf. unfold canon. rewrite conv_out_id_lemma; auto. Qed.
+
+(* ------------------------------------------------------------------------------------------ *)
+(* the two transports *)
+
+Section HandoffProofs.
+Variable arity : cid -> nat.
+Hypothesis arity_type : arity type_id = 1%nat.
+Hypothesis arity_tuple : arity tuple_id = 1%nat.
+Variables text bytes : Type.
+Variable print : ty -> text.
+Variable parse : text -> option ty.
+Variable encode : ty -> bytes.
+Variable decode : bytes -> option ty.
+Variables resolve prep reorder post : ty -> ty.
+
+(* C05: printing then parsing a dialect type gives a dialect type that differs at most in member order *)
+Hypothesis C05_print_parse :
+  forall t, wf_top arity t = true -> exists a, parse (print t) = Some a /\ wf_top arity a = true /\ canon a = canon t.
+(* C12: the codec round trip is the identity *)
+Hypothesis C12_decode_encode : forall a, decode (encode a) = Some a.
+(* C04: canonical ordering is a permutation of union members *)
+Hypothesis C04_reorder : preserves arity reorder.
+(* name resolution does not change a type expression whose classes are already identified *)
+Hypothesis resolve_ok : preserves arity resolve.
+Hypothesis prep_ok : preserves arity prep.
+Hypothesis post_ok : preserves arity post.
+
+Notation derived a := (def_ty (out_top arity (conv_var arity a))).
+
+Lemma handoff_text_lemma t :
+  wf_top arity t = true ->
+  exists a, text_transport text print parse resolve t = Some a /\ canon (derived a) = canon t.
+Proof.
+  intros Hwf. destruct (C05_print_parse t Hwf) as (a & Hp & Hwa & Hca).
+  destruct (resolve_ok a Hwa) as (Hwr & Hcr).
+  exists (resolve a). unfold text_transport. rewrite Hp. split; auto.
+  rewrite conv_out_canon_lemma by auto. congruence.
+Qed.
+
+Lemma handoff_pickle_lemma t :
+  wf_top arity t = true ->
+  exists b, pickle_transport text bytes print parse encode decode prep reorder post t = Some b /\
+            canon (derived b) = canon t.
+Proof.
+  intros Hwf. destruct (C05_print_parse t Hwf) as (a & Hp & Hwa & Hca).
+  destruct (prep_ok a Hwa) as (Hw1 & Hc1).
+  destruct (C04_reorder _ Hw1) as (Hw2 & Hc2).
+  destruct (post_ok _ Hw2) as (Hw3 & Hc3).
+  exists (post (reorder (prep a))). unfold pickle_transport. rewrite Hp, C12_decode_encode. split; auto.
+  rewrite conv_out_canon_lemma by auto. congruence.
+Qed.
+
+Lemma transports_agree_lemma t :
+  wf_top arity t = true ->
+  exists a b, text_transport text print parse resolve t = Some a /\
+              pickle_transport text bytes print parse encode decode prep reorder post t = Some b /\
+              canon a = canon b /\ canon (derived a) = canon (derived b).
+Proof.
+  intros Hwf. destruct (C05_print_parse t Hwf) as (a & Hp & Hwa & Hca).
+  destruct (resolve_ok a Hwa) as (Hwr & Hcr).
+  destruct (prep_ok a Hwa) as (Hw1 & Hc1).
+  destruct (C04_reorder _ Hw1) as (Hw2 & Hc2).
+  destruct (post_ok _ Hw2) as (Hw3 & Hc3).
+  exists (resolve a), (post (reorder (prep a))).
+  unfold text_transport, pickle_transport. rewrite Hp, C12_decode_encode.
+  repeat split; auto; try congruence.
+  rewrite !conv_out_canon_lemma by auto. congruence.
+Qed.
+End HandoffProofs.
+
+(* ------------------------------------------------------------------------------------------ *)
+(* the statement over the full emitted dialect (bare `type` included) is refuted *)
+
+Lemma bare_type_refuted_lemma : exists t,
+  wf_full_top builtin_arity t = true /\
+  canon (def_ty (out_top builtin_arity (conv_var builtin_arity t))) <> canon t.
+Proof. exists (TClass type_id). split; [reflexivity|]. vm_compute. discriminate. Qed.
